@@ -17,13 +17,19 @@ def orAbort {α} (o : Option α) (msg : String) : M α :=
 def Cell.putCtx (c : Cell) (a : App) : PutCtx :=
   { srvs := c.srvs, app := a, traits := c.appTraits a, label := (c.allocInfo a.alloc).label, now := c.now }
 
+/-- The app record `Server.put` sees: `restore` sets `lease = 0` around the call. -/
+def putApp (a : App) (lease0 : Bool) : App := if lease0 then { a with lease := 0 } else a
+
 /-- `Server.put(app)`.  `lease0` = called from `restore` (lease temporarily 0). -/
 def serverPut (c : Cell) (aid sid : Nat) (lease0 : Bool) : M (Cell × Bool) := do
   let a ← orAbort (c.app? aid) "put: unknown app"
   let s ← orAbort (c.srv? sid) "put: unknown server"
   if s.apps.contains aid then throw "assert app.name not in self.apps"
+  -- MODEL-ONLY assertion (the code has none): every caller puts an app that is not placed.
+  -- The correspondence run shows the real code never reaches `put` with a placed app.
+  if a.server.isSome then throw "model-assert: app.server is None in Server.put"
   let anc ← orAbort (c.tree.path sid) "put: server not in tree"
-  let ap := if lease0 then { a with lease := 0 } else a
+  let ap := putApp a lease0
   if !srvCheck (c.putCtx ap) s anc then return (c, false)
   let s' := { s with free := s.free - a.demand, apps := s.apps ++ [aid], aff := cadd s.aff a.aff 1 }
   let a' := { a with server := some sid,
@@ -236,79 +242,98 @@ def evictLoop (aid : Nat) : List Nat → Cell → List (Nat × Nat × Option Int
           let (c2, rc) ← serverPut c1 aid sid false
           if rc then return (c2, ev') else evictLoop aid rest c2 ev'
 
-/-- Body of the `for app in queue` loop. `unplaced` = `final_rank == _UNPLACED_RANK`. -/
-def placeOne (revq : List Nat) (st : PState) (q : Nat × Bool) : M PState := do
-  let aid := q.1
-  let a ← orAbort (st.cell.app? aid) "place: unknown app"
-  if a.blacklisted then return st
-  if q.2 then
-    let c1 ← match a.server with
-      | some sid =>
-        if (st.cell.srv? sid).isNone then throw "assert app.server in servers"
-        if !a.hasIdentity then throw "assert app.has_identity()"
-        serverRemove st.cell sid aid
-      | none => pure st.cell
-    let c2 ← releaseIdentity c1 aid
-    return { st with cell := c2 }
-  -- renewal
-  let (c1, restore) ← (do
-    if a.renew then
-      let sid ← orAbort a.server "assert app.server"
-      if !a.hasIdentity then throw "assert app.has_identity()"
-      if (st.cell.srv? sid).isNone then throw "assert app.server in servers"
-      let (c', ok) ← serverRenew st.cell aid sid
+/-- `final_rank == _UNPLACED_RANK`: drop the placement (if any) and the identity. -/
+def unplacedBranch (c : Cell) (a : App) : M Cell := do
+  let c1 ← match a.server with
+    | some sid =>
+      if (c.srv? sid).isNone then throw "assert app.server in servers"
+      else if !a.hasIdentity then throw "assert app.has_identity()"
+      else serverRemove c sid a.id
+    | none => pure c
+  releaseIdentity c1 a.id
+
+/-- `if app.renew:` block; returns the saved placement when the renewal failed. -/
+def renewStep (c : Cell) (a : App) : M (Cell × Option (Nat × Option Int)) := do
+  if a.renew then
+    let sid ← orAbort a.server "assert app.server"
+    if !a.hasIdentity then throw "assert app.has_identity()"
+    else if (c.srv? sid).isNone then throw "assert app.server in servers"
+    else
+      let (c', ok) ← serverRenew c a.id sid
       if ok then pure (c', none)
       else
-        let c'' ← serverRemove c' sid aid
+        let c'' ← serverRemove c' sid a.id
         pure (c'', some (sid, a.expiry))
-    else pure (st.cell, none) : M (Cell × Option (Nat × Option Int)))
-  let a1 ← orAbort (c1.app? aid) "place: unknown app"
-  let c1 := c1.setApp { a1 with renew := false }
-  let a1 := { a1 with renew := false }
-  let st := { st with cell := c1 }
-  match a1.server with
-  | some sid =>
-    if (c1.srv? sid).isNone then throw "assert app.server in servers"
-    if !a1.hasIdentity then throw "assert app.has_identity()"
-    return st
-  | none =>
-  let (c2, got, ch) ← acquireIdentity c1 aid st.choices
-  let st := { st with cell := c2, choices := ch }
-  if !got then return st
-  -- restore to the server it was evicted from in this cycle
-  let (st, done) ← (match st.evicted.find? (fun p => p.1 = aid) with
-    | some (_, from_, exp) => do
-      let a2 ← orAbort (st.cell.app? aid) "place: unknown app"
-      if !a2.hasIdentity then throw "assert app.has_identity()"
+  else pure (c, none)
+
+/-- `if app in evicted:` block: try to go back to the server the app was evicted from. -/
+def restoreEvicted (st : PState) (aid : Nat) : M (PState × Bool) :=
+  match st.evicted.find? (fun p => p.1 = aid) with
+  | some (_, from_, exp) => do
+    let a2 ← orAbort (st.cell.app? aid) "place: unknown app"
+    if !a2.hasIdentity then throw "assert app.has_identity()"
+    else
       let ev := st.evicted.filter (fun p => p.1 ≠ aid)
       let (c3, rc) ← serverRestore st.cell aid from_ exp
       if rc then
         let a3 ← orAbort (c3.app? aid) "place: unknown app"
         pure ({ st with cell := c3.setApp { a3 with evicted := false }, evicted := ev }, true)
       else pure ({ st with cell := c3, evicted := ev }, false)
-    | none => pure (st, false) : M (PState × Bool))
-  if done then return st
+  | none => pure (st, false)
+
+/-- `self.put(app)`, the eviction loop, and the "Placement failed" epilogue. -/
+def tryPlace (revq : List Nat) (st : PState) (aid : Nat) (restore : Option (Nat × Option Int)) : M PState := do
   let a2 ← orAbort (st.cell.app? aid) "place: unknown app"
-  if a2.schedOnce && a2.evicted then
-    let c3 ← releaseIdentity st.cell aid
-    return { st with cell := c3 }
   let key := st.cell.tkey a2
-  if !trackerFeasible st.tracker key a2.demand then
-    let c3 ← releaseIdentity st.cell aid
-    return { st with cell := c3 }
   let (c3, placed) ← cellPut st.cell aid
   let (c4, ev) ← (if placed then pure (c3, st.evicted) else evictLoop aid revq c3 st.evicted)
-  let st := { st with cell := c4, evicted := ev }
   let a4 ← orAbort (c4.app? aid) "place: unknown app"
-  if a4.server.isSome then return st
-  match restore with
-  | some (sid, exp) =>
-    let (c5, _) ← serverRestore c4 aid sid exp
-    let a5 ← orAbort (c5.app? aid) "place: unknown app"
-    return { st with cell := c5.setApp { a5 with renew := true } }
-  | none =>
-    let c5 ← releaseIdentity c4 aid
-    return { st with cell := c5, tracker := trackerAdjust st.tracker key a2.demand }
+  if a4.server.isSome then return { st with cell := c4, evicted := ev }
+  else match restore with
+    | some (sid, exp) =>
+      let (c5, _) ← serverRestore c4 aid sid exp
+      let a5 ← orAbort (c5.app? aid) "place: unknown app"
+      return { st with cell := c5.setApp { a5 with renew := true }, evicted := ev }
+    | none =>
+      let c5 ← releaseIdentity c4 aid
+      return { st with cell := c5, evicted := ev, tracker := trackerAdjust st.tracker key a2.demand }
+
+/-- After a successful `acquire_identity`. -/
+def afterAcquire (revq : List Nat) (st : PState) (aid : Nat) (restore : Option (Nat × Option Int)) : M PState := do
+  let (st, done) ← restoreEvicted st aid
+  if done then return st
+  else
+    let a2 ← orAbort (st.cell.app? aid) "place: unknown app"
+    if a2.schedOnce && a2.evicted then
+      let c3 ← releaseIdentity st.cell aid
+      return { st with cell := c3 }
+    else if !trackerFeasible st.tracker (st.cell.tkey a2) a2.demand then
+      let c3 ← releaseIdentity st.cell aid
+      return { st with cell := c3 }
+    else tryPlace revq st aid restore
+
+/-- Body of the `for app in queue` loop. `unplaced` = `final_rank == _UNPLACED_RANK`. -/
+def placeOne (revq : List Nat) (st : PState) (q : Nat × Bool) : M PState := do
+  let aid := q.1
+  let a ← orAbort (st.cell.app? aid) "place: unknown app"
+  if a.blacklisted then return st
+  else if q.2 then
+    let c2 ← unplacedBranch st.cell a
+    return { st with cell := c2 }
+  else
+    let (c1, restore) ← renewStep st.cell a
+    let a1 ← orAbort (c1.app? aid) "place: unknown app"
+    let c1 := c1.setApp { a1 with renew := false }
+    match a1.server with
+    | some sid =>
+      if (c1.srv? sid).isNone then throw "assert app.server in servers"
+      else if !a1.hasIdentity then throw "assert app.has_identity()"
+      else return { st with cell := c1 }
+    | none =>
+      let (c2, got, ch) ← acquireIdentity c1 aid st.choices
+      let st := { st with cell := c2, choices := ch }
+      if !got then return st
+      else afterAcquire revq st aid restore
 
 /-- `_find_placements(queue, servers)`. -/
 def findPlacements (c : Cell) (queue : List (Nat × Bool)) (choices : List Nat) : M (Cell × List Nat) := do
